@@ -219,3 +219,13 @@ def run(ck):
                 any(ac.nodes[j].get('op') == '+' for j in srcs) and \
                 any(ac.nodes[j]['k'] == 'DeclRefExpr' and ac.nodes[j].get('d') == ac.params[2]['d'] for j in srcs)
     ck.ob('C06.find', 'C06.find/contact-expiry', ok, ac.loc(), 'add_contact sets contact.expires_at = steady_clock::now() + ttl')
+    # the most recent announcement supersedes the earlier one on EVERY path: no exit of add_contact before the stale entry of the
+    # same peer was erased and the new contact pushed
+    cfg = Cfg.of(ac)
+    erases = [i for i in ac.walk() if (ac.nodes[i].get('callee') or '').endswith('::erase') and
+              ac.nodes[ac.strip(ac.receiver(i))].get('k') in ('DeclRefExpr', 'MemberExpr')] if hasattr(ac, 'receiver') else []
+    pushes = [i for i in ac.walk() if (ac.nodes[i].get('callee') or '').endswith('::push_back')]
+    for what, sites in (('erase-previous', erases), ('push-new', pushes)):
+        wit = cfg.must_pass_from((cfg.entry, -1), lambda e, s_=set(sites): e in s_) if sites else ['no such statement']
+        ck.ob('C06.supersede', 'C06.supersede/' + what, wit is None, ac.loc(),
+              'every call of add_contact reaches the %s step (an early return would leave the peer\'s stale announcement in force)' % what, wit)
